@@ -13,9 +13,10 @@ func extraGen(kind string, seed int64, prop string, idx int) (*Case, bool) {
 		return &Case{Kind: kind, G: &GraphCase{Batch: 2000, Seed: r.Int63()}}, true
 	case "small":
 		return &Case{Kind: kind, H: genSmall(idx, caseRand(seed, kind, idx))}, true
-	case "diff:c06", "diff:c15", "diff:c16", "diff:c16deco", "diff:c17":
+	case "diff:c06", "diff:c15", "diff:c16", "diff:c16deco", "diff:c17", "diff:c15big", "diff:c16big", "diff:c17big", "diff:c16graph", "diff:c17graph", "diff:c06graph":
 		r := caseRand(seed, kind, idx)
-		prof := map[string]string{"diff:c06": "rejects", "diff:c15": "enc", "diff:c16": "order", "diff:c16deco": "orderdeco", "diff:c17": "dry"}[kind]
+		prof := map[string]string{"diff:c06": "rejects", "diff:c15": "enc", "diff:c16": "order", "diff:c16deco": "orderdeco", "diff:c17": "dry",
+			"diff:c15big": "large", "diff:c16big": "large", "diff:c17big": "large", "diff:c16graph": "largegraph", "diff:c17graph": "largegraph", "diff:c06graph": "largegraph"}[kind]
 		h := genHistory(r, profileByName(prof))
 		return &Case{Kind: kind, H: h, X: map[string]interface{}{"tseed": r.Int63n(1 << 40)}}, true
 	case "diff:c16block":
@@ -97,13 +98,13 @@ func extraCheck(prop string, c *Case, trace bool) (*CaseResult, bool) {
 		return checkC16(c, trace), true
 	case strings.HasPrefix(c.Kind, "difftiny") && strings.HasSuffix(c.Kind, ":c17"):
 		return checkC17(c, trace), true
-	case c.Kind == "diff:c06":
+	case c.Kind == "diff:c06" || c.Kind == "diff:c06graph":
 		return checkC06(c, trace), true
-	case c.Kind == "diff:c15":
+	case c.Kind == "diff:c15" || c.Kind == "diff:c15big":
 		return checkC15(c, trace), true
-	case c.Kind == "diff:c16" || c.Kind == "diff:c16deco" || c.Kind == "diff:c16block":
+	case c.Kind == "diff:c16" || c.Kind == "diff:c16deco" || c.Kind == "diff:c16block" || c.Kind == "diff:c16big" || c.Kind == "diff:c16graph":
 		return checkC16(c, trace), true
-	case c.Kind == "diff:c17":
+	case c.Kind == "diff:c17" || c.Kind == "diff:c17big" || c.Kind == "diff:c17graph":
 		return checkC17(c, trace), true
 	}
 	return nil, false
